@@ -23,6 +23,8 @@ LenClass  == {"exact", "one-short", "one-long", "2^31-1", "2^63-1", "truncated-v
 Tokens ==
   {<<"options", s>> : s \in SizeClass}
   \cup {<<"entry", i>> : i \in {"0", "1", "4096", "2^32-1"}}
+  \cup {<<"pfx-entry", i>> : i \in {"1", "2^32-1"}} \cup {<<"dt-entry", i>> : i \in {"1", "2^32-1"}}
+  \cup {<<"metadata">>, <<"many-rows">>, <<"many-empty-frames">>, <<"namespace-row">>, <<"graph-start-nested">>}
   \cup {<<"statement", d>> : d \in {"flat", "nest-3", "nest-99", "nest-101", "nest-5000", "repeat-all"}}
   \cup {<<"frame-end", l>> : l \in LenClass}
   \cup {<<"empty-frame">>, <<"garbage">>, <<"unknown-field">>}
